@@ -317,8 +317,9 @@ Circ<S> so2_stratum(Rng & r, int i)
   case 19: return {-eps, one, "zero_adjacent"};
   case 20: {
     // +0 / -0 with a negative real part of generic magnitude below 1 (unnormalised view data)
-    const S w = -S(r.uni(0.25, 1.0));
-    return {(r.next() & 1) ? z : nz, w, (r.next() & 1) ? "halfturn_pz" : "halfturn_nz"};
+    const S w     = -S(r.uni(0.25, 1.0));
+    const bool pz = r.next() & 1;
+    return {pz ? z : nz, w, pz ? "halfturn_pz_unnormalised" : "halfturn_nz_unnormalised"};
   }
   case 21: {
     const double e = r.logu(1e-12, 1e-2) * r.sign();  // |yaw| near pi
